@@ -3,12 +3,10 @@ PROP = dict(
     id="C18",
     module="FV.C18.Props",
     coq_targets=["theories/C18/Props.vo"],
-    theorems=["used_ids_exist", "final_records_nonempty", "registered_strings_are_source",
-              "instance_ids_allowed_refuted", "instance_ids_allowed_outside",
-              "alloc_perm_invariant_refuted", "names_depend_only_on_source", "source_ids_above_255_refuted",
+    theorems=["used_ids_exist", "instance_ids_allowed", "source_records_kept", "final_records_nonempty",
+              "registered_strings_are_source", "names_depend_only_on_source",
               "fea_ids_say_source", "fea_empty_group_refuted", "fea_names_survive_merge",
-              "static_font_refs_intact", "size_ref_refuted", "elided_ref_refuted",
-              "fallback_chain_table", "source_to_fvar_ids_exist"],
+              "static_font_refs_intact", "fallback_chain_table", "source_to_fvar_ids_exist"],
     prelude="Require Import FV.C18.Model.\nFrom Coq Require Import List NArith ZArith Bool.\nOpen Scope N_scope.",
     harness_args=lambda tier, seed: ["--seed", str(seed), "--n", str(N[tier][0]), "--fonts", str(N[tier][1])],
     shard=40,
@@ -22,8 +20,8 @@ PROP = dict(
          "in-process from generated designspace+UFO sources (fontinfo naming fields, styleMap names, "
          "openTypeNameRecords, axis label names, instances whose names equal family / style / label strings, FEA "
          "featureNames / cvParameters / size / STAT / name table with Windows, Mac and other-language names) decoded "
-         "with read-fonts; 11 fixed scenarios first (one per known failure class; the hash-order ones are built 10 "
-         "times), sources with coinciding strings are built 3 times, every fourth other source twice. Non-trivial = "
+         "with read-fonts; 11 fixed scenarios first (one per failure class found so far, repaired or known; the former "
+         "hash-order ones are built 10 times), sources with coinciding strings are built 3 times, every fourth other source twice. Non-trivial = "
          "non-empty add list / has a variable axis / a compiled font; distinct = distinct input.",
     trusted_base=["Coq 8.16.1 kernel (coqc, vm_compute for case evaluation and the refutation witnesses)",
                   "hand-written model FV.C18.Model tied to fontir::ir::NameBuilder, StaticMetadata::new, fontbe "
@@ -51,6 +49,6 @@ PROP = dict(
 )
 
 MANIFEST = dict(
-    text='Coq theorems over a model of NameBuilder (fallback chain = decision table, for every add sequence naming each id once), StaticMetadata::new name registration, fvar/STAT id selection (every id used exists, is >= 256 where required and carries the source string, for every HashMap iteration order), fea-rs id allocation, remap_name_ids and the name merge; six refutation theorems with vm_compute witnesses for the places where the code falls short of the property (reserved instance ids, hash-order dependence, source ids above 255, empty FEA names, size name entry, shifted elided fallback id), each reproduced on the real code by the harness. Tied to the code on every run at unit level (NameBuilder, StaticMetadata::new) and on whole fonts.',
+    text='Coq theorems over a model of NameBuilder (fallback chain = decision table, for every add sequence naming each id once), StaticMetadata::new name registration, fvar/STAT id selection (every id used exists, is >= 256 where required and carries the source string, for every HashMap iteration order), fea-rs id allocation, remap_name_ids and the name merge; after five repairs in fontc (order-free default-instance test, only 2/17 among reserved instance ids, registration starts above the largest source id, elided fallback id and size name entry go through adjust_id) the statements hold without side conditions, for every iteration order of both HashMaps; one refutation theorem remains (an all-empty FEA name group shares its id: known finding), and the harness reports every repaired class again under its key should it return. Tied to the code on every run at unit level (NameBuilder, StaticMetadata::new) and on whole fonts.',
     note='Trusted: Coq kernel + vm_compute; hand-written model and its correspondence run; Rust harness and read-fonts decoders. No axioms (Print Assumptions: closed under the global context).',
 )
